@@ -648,6 +648,9 @@ func (w *SimWriter) Write(p []byte) (int, error) {
 		// no legitimate render of the workload produces megabytes: unbounded output is non-termination
 		panic(simrt.StepOverrun{Steps: simrt.Step()})
 	}
+	if w.Fired && w.spec.Form == 4 {
+		return 0, nil // a full destination that keeps reporting, by count alone, that nothing was taken
+	}
 	if w.Fired {
 		return 0, errWriter
 	}
@@ -665,6 +668,15 @@ func (w *SimWriter) Write(p []byte) (int, error) {
 		case 2:
 			w.Got = append(w.Got, p...)
 			return len(p), errWriter
+		case 4:
+			// the failure is reported by the count alone: fewer bytes taken than offered, nil error (io.ErrShortWrite
+			// exists for this; bufio, io.Copy and bytes.Buffer.WriteTo all treat it as a failed write)
+			n := w.spec.FailAt - len(w.Got)
+			if n < 0 {
+				n = 0
+			}
+			w.Got = append(w.Got, p[:n]...)
+			return n, nil
 		default:
 			return 0, errWriter
 		}
